@@ -1,6 +1,9 @@
 package props
 
 import (
+	"google.golang.org/protobuf/proto"
+
+	"github.com/avos-io/goat/gen/goatorepo"
 	"github.com/avos-io/goat/vh/env"
 	"github.com/avos-io/goat/vrt/explore"
 	"github.com/avos-io/goat/vrt/vsched"
@@ -30,3 +33,7 @@ func donors(prop string, lists ...[]*explore.Scenario) []*explore.Scenario {
 	}
 	return out
 }
+
+func kv(k, v string) *goatorepo.KeyValue { return &goatorepo.KeyValue{Key: k, Value: v} }
+
+func unmarshal(b []byte, m proto.Message) error { return proto.Unmarshal(b, m) }
